@@ -23,7 +23,13 @@
 (* Part 2 is the code-shaped state machine: one action per response body      *)
 (* (processStream + the bookkeeping of handleSSE after it), one per reconnect *)
 (* attempt (connectSSE + checkResponse).  The environment chooses the cut of  *)
-(* every body and the outcome of every attempt.  Three switches replace the   *)
+(* every body and the outcome of every attempt: an attempt is answered with   *)
+(* 200, a transport error or an HTTP status - the statuses are VALUES, the     *)
+(* transient ones form the class TransientStatus, every member of which must   *)
+(* be retried within the budget.  The environment may also be "stuck": once    *)
+(* its scripted cuts are used up it keeps ending every body at offset 0 for    *)
+(* ever, so "never retries for ever" is a property of the model (Terminates)   *)
+(* and an observable of the replay.  Three switches replace the                *)
 (* code's behaviour by the behaviour the property asks for (FixScanner,       *)
 (* FixCursor, Fix5xx); with all three the design check passes, with none the  *)
 (* model is the code as it stands and TLC's counterexamples are leads that    *)
@@ -45,14 +51,19 @@ Bogus == -2
 (*          ended cleanly (only its blank line is missing);                   *)
 (*          knd: "err" | "eof" | "none" (not cut)                             *)
 (* o.recon  Seq([sent, outs])      reconnect i follows body i: the cursor in  *)
-(*          its Last-Event-ID header, the answers the attempts got            *)
+(*          its Last-Event-ID header, the answers the attempts got: "ok"      *)
+(*          (200 + a body), "terr" (transport error) or the HTTP status as a  *)
+(*          string ("500", "404", ...)                                        *)
 (* o.rd     messages returned by Connection.Read (index, -1 = not a message   *)
 (*          of the stream: truncated or altered payload)                      *)
 (* o.notes  notifications the session's handler saw (same encoding)           *)
 (* o.outcome post: "resp" | "err" | "hang"     sa: "open" | "failed"          *)
 (* o.respok the call's result is the server's response, intact                *)
 
-Transient == {"terr", "5xx"}       \* a failed attempt that says nothing about the session
+\* the HTTP statuses that say nothing about the stream or the session (isTransientHTTPStatus documents
+\* exactly these): each of them, answering a reconnect attempt, is a failed attempt like a transport error
+TransientStatus == {"429", "500", "502", "503", "504"}
+Transient == {"terr"} \cup TransientStatus   \* a failed attempt that says nothing about the session
 
 MaxOf(S) == CHOOSE x \in S : \A y \in S : y <= x
 Iota(n) == [i \in 1..n |-> i]
@@ -78,6 +89,13 @@ WithinBudget(o) ==
   /\ ~\E i \in 1..Len(o.bodies) :
         /\ i + o.mr - 1 <= Len(o.bodies)
         /\ \A j \in i..(i + o.mr - 1) : NoProg(o, j)
+
+\* the budget also bounds the client: after mr + 1 bodies IN A ROW that brought no new id across it has
+\* given up ("retries exhausted without progress": it makes progress or gives up, it never retries for ever)
+BoundedRetries(o) ==
+  ~\E i \in 1..Len(o.bodies) :
+        /\ i + o.mr + 1 <= Len(o.bodies)
+        /\ \A j \in i..(i + o.mr + 1) : NoProg(o, j)
 
 \* a sequence of delivered indices is fine: only messages of the stream, each at most once,
 \* in stream order; without gaps whenever the client had the means to resume
@@ -110,7 +128,7 @@ RealResponseWithinBudget(o) == (NoCut(o) \/ (Resumable(o) /\ WithinBudget(o))) =
 CleanFailure(o) == o.outcome # "hang"
 
 Holds(o) == /\ ExactlyOnceInOrder(o) /\ NoTruncatedSurfaced(o) /\ ResumeCursor(o)
-            /\ RealResponseWithinBudget(o) /\ CleanFailure(o)
+            /\ RealResponseWithinBudget(o) /\ CleanFailure(o) /\ BoundedRetries(o)
 
 -----------------------------------------------------------------------------
 (* Part 2: the client as the code has it                                      *)
@@ -122,7 +140,8 @@ CONSTANTS KindSet,     \* subset of {"post", "sa"}
           MRSet,       \* retry budgets
           MaxCuts,     \* how many bodies the environment may cut
           ClassSet,    \* position classes the environment may cut at (see ClassesOf; "bnd" = event boundary)
-          AnswerSet,   \* what a reconnect attempt may be answered with: subset of {"terr", "ok", "5xx", "404"}
+          AnswerSet,   \* what a reconnect attempt may be answered with: subset of {"terr", "ok"} \cup Statuses
+          TailSet,     \* subset of {"good", "stuck"}: what the server does once MaxCuts bodies have been cut (see Body)
           FixScanner,  \* at end of input an incomplete event is discarded
           FixCursor,   \* the resume cursor survives from one body to the next
           Fix5xx       \* a transient status on reconnect is retried like a transport error
@@ -132,8 +151,14 @@ CONSTANTS KindSet,     \* subset of {"post", "sa"}
 Shapes == {[ids |-> "all", prime |-> "first"], [ids |-> "all", prime |-> "every"],
            [ids |-> "all", prime |-> "none"], [ids |-> "none", prime |-> "none"]}
 
+\* statuses a reconnect attempt may be answered with besides 200: the transient class and statuses that
+\* are NOT transient: session gone (404), refused (403), a 5xx outside the class (501)
+Statuses == TransientStatus \cup {"404", "403", "501"}
+ASSUME AnswerSet \subseteq {"terr", "ok"} \cup Statuses
+ASSUME TailSet \subseteq {"good", "stuck"}
+
 VARIABLES
-  cfg,       \* [kind, ids, prime, scheme, M, mr]
+  cfg,       \* [kind, ids, prime, scheme, M, mr, tail]
   pc,        \* "body" | "recon" | "done"
   from,      \* the body about to be served starts after message `from`
   primed,    \* ... and opens with a priming event
@@ -153,7 +178,7 @@ VARIABLES
 vars == <<cfg, pc, from, primed, wire, ncut, bodies, recon, prev, rwp, last, att, outs, rd, failed, outcome>>
 
 Configs == {c \in [kind : KindSet, ids : {"all", "none"}, prime : {"first", "every", "none"},
-                   scheme : SchemeSet, M : MSet, mr : MRSet] :
+                   scheme : SchemeSet, M : MSet, mr : MRSet, tail : TailSet] :
               /\ [ids |-> c.ids, prime |-> c.prime] \in ShapeSet
               /\ c.ids = "none" => c.scheme = "dec"
               /\ c.kind = "post" => c.M >= 1}
@@ -245,8 +270,15 @@ Body ==
   /\ pc = "body"
   /\ LET es == Elems(from, primed)
          ended == cfg.kind = "post" /\ from >= cfg.M
+         \* a stuck server: once the scripted cuts are used up, if the last body ended at offset 0 so does
+         \* every later one, for ever (a proxy that accepts the GET with 200 and closes; not counted in ncut's bound)
+         lb == bodies[Len(bodies)]
+         stuck == /\ cfg.tail = "stuck" /\ bodies # <<>>
+                  /\ lb.knd # "none" /\ lb.cls = "bnd" /\ lb.n = 0
          choices == IF ended THEN {EndRec(es)}
-                    ELSE IF ncut < MaxCuts THEN CutChoices(es) \cup {NoCutRec} ELSE {NoCutRec}
+                    ELSE IF ncut < MaxCuts THEN CutChoices(es) \cup {NoCutRec}
+                    ELSE IF stuck THEN {[n |-> 0, cls |-> "bnd", knd |-> lb.knd, al |-> None]}
+                    ELSE {NoCutRec}
      IN \E cut \in choices :
         LET start == IF FixCursor THEN prev ELSE None
             r == Scan(es, cut, start)
@@ -292,7 +324,7 @@ Recon ==
         /\ UNCHANGED <<from, primed, att, outs>>
      ELSE \E a \in Answers :
         LET o2 == Append(outs, a) IN
-        IF a = "terr" \/ (a = "5xx" /\ Fix5xx) THEN
+        IF a = "terr" \/ (a \in TransientStatus /\ Fix5xx) THEN
            /\ att' = att + 1 /\ outs' = o2
            /\ UNCHANGED <<pc, from, primed, recon, failed, outcome>>
         ELSE IF a = "ok" THEN
@@ -300,7 +332,8 @@ Recon ==
            /\ from' = (IF last >= 0 THEN last ELSE wire)
            /\ primed' = (cfg.prime = "every")
            /\ UNCHANGED <<att, failed, outcome>>
-        ELSE \* 5xx, 404, 400: checkResponse reports an error, handleSSE fails the connection
+        ELSE \* any other status (404, 403, 501, 400; a transient one without Fix5xx): checkResponse reports an
+             \* error, handleSSE fails the connection
            /\ Fail /\ pc' = "done" /\ recon' = Closed(o2) /\ outs' = <<>>
            /\ UNCHANGED <<from, primed, att>>
 
@@ -329,6 +362,7 @@ InvNoTruncated == Done => NoTruncatedSurfaced(ObsOf)
 InvResumeCursor == ResumeCursor(ObsOf)
 InvRealResponse == Done => RealResponseWithinBudget(ObsOf)
 InvCleanFailure == Done => CleanFailure(ObsOf)
-\* every run ends: the call never stays pending
+InvBoundedRetries == BoundedRetries(ObsOf)
+\* every run ends: the call never stays pending - also against a stuck server
 Terminates == <>[]Done
 =============================================================================
